@@ -756,3 +756,31 @@ mutant("rfv-list-ctor-reuses-cell",
        [("src/eval/value.rs", "    pub fn list(items: List) -> Self {\n        Value::List(new_shared(items))\n    }",
          "    pub fn list(items: List) -> Self {\n        thread_local! { static CELL: ListRef = new_shared(vec![]); }\n        if items.is_empty() {\n            return Value::List(CELL.with(|c| c.clone()));\n        }\n        Value::List(new_shared(items))\n    }")],
        [("C05", "R05.3")], base=RFV, note="constructor refactor + every empty list shares one cell")
+
+# ---- round 6 (style-driven refactors) ------------------------------------------
+RSP = "refactors/s-perf/patch.diff"
+mutant("rsp-entry-declare-overwrites",
+       [(SC, "            Entry::Occupied(entry) => {\n                let (_, prev_loc) = entry.get();\n\n                return Err(*prev_loc);\n            },",
+             "            Entry::Occupied(mut entry) => {\n                entry.insert((v, loc));\n            },")],
+       [("C20", "R20.2")], base=RSP, note="entry-API declare + an occupied entry is overwritten instead of refused")
+RST = "refactors/s-types/patch.diff"
+mutant("rst-arity-minimum-off-by-one",
+       [("src/ast.rs", "            Arity::AtLeast(self.targets.len()-1)", "            Arity::AtLeast(self.targets.len())")],
+       [("C13", "R13.1")], base=RST, note="Arity accessor + a collecting parameter list demands n arguments instead of n-1")
+mutant("rst-arity-flag-inverted",
+       [("src/ast.rs", "        if self.collect {\n            Arity::AtLeast(self.targets.len()-1)\n        } else {\n            Arity::Exactly(self.targets.len())\n        }",
+                       "        if !self.collect {\n            Arity::AtLeast(self.targets.len()-1)\n        } else {\n            Arity::Exactly(self.targets.len())\n        }")],
+       [("C13", "R13.1")], base=RST, note="Arity accessor + the collect flag selects the wrong count test")
+RSC = "refactors/s-consts/patch.diff"
+mutant("rsc-table-lte-is-lt",
+       [(L, '    ("<=", Token::LessThanEquals),', '    ("<=", Token::LessThan),')],
+       [("C08", "R08.3")], base=RSC, note="static spelling table + `<=` spelled as the `<` token")
+RSE = "refactors/s-errors/patch.diff"
+mutant("rse-index-missing-key-is-null",
+       [(E, "                        .ok_or_else(|| Error::PropNotFound{name}.at(*loc))?;", "                        .unwrap_or(Value::Null);")],
+       [("C12", "R12.2")], base=RSE, note="combinator error plumbing + `o[\"k\"]` answers null for a missing key while `o.k` raises")
+RSF = "refactors/s-flow/patch.diff"
+mutant("rsf-this-bound-unconditionally",
+       [(E, "    if let Some(this) = this {\n        // TODO Consider how to avoid creating a new AST variable node here.",
+            "    {\n        let this = this.unwrap_or(Value::Null);\n        // TODO Consider how to avoid creating a new AST variable node here.")],
+       [("C14", "R14.3")], base=RSF, note="bindings helper + `this` is bound (to null) for plain calls too")
